@@ -181,3 +181,35 @@ def exclusive_helpers(prog: Program, root: FuncInfo) -> set[str]:
                 out.add(q)
                 changed = True
     return out
+
+
+def must_atoms(edges) -> list[tuple[ast.AST, bool]]:
+    """Sub-conditions with the truth value they are known to have, given the (test node, label) branch edges taken:
+    `if not A: continue` passed on F gives (A, True); `if A or B: continue` passed on F gives (A, False), (B, False)."""
+    out: list[tuple[ast.AST, bool]] = []
+
+    def add(e: ast.AST, truth: bool) -> None:
+        if isinstance(e, ast.UnaryOp) and isinstance(e.op, ast.Not):
+            add(e.operand, not truth)
+        elif isinstance(e, ast.BoolOp) and isinstance(e.op, ast.And) and truth:
+            for v in e.values:
+                add(v, True)
+        elif isinstance(e, ast.BoolOp) and isinstance(e.op, ast.Or) and not truth:
+            for v in e.values:
+                add(v, False)
+        else:
+            out.append((e, truth))
+
+    for b, lab in edges:
+        if b.kind == "test" and lab in ("T", "F"):
+            add(b.ast, lab == "T")
+    return out
+
+
+def guard_atoms(prog: Program, fi: FuncInfo, node: Node) -> list[tuple[ast.AST, bool, Node]]:
+    """(sub-condition, truth value, test node) known at `node` from all the branches it (transitively) depends on."""
+    out: list[tuple[ast.AST, bool, Node]] = []
+    for b, lab in all_guards(prog, fi, node):
+        for a, truth in must_atoms([(b, lab)]):
+            out.append((a, truth, b))
+    return out
